@@ -225,18 +225,26 @@ def step (s : Eng) (line : String) : Eng × String :=
        let chk := pgs.foldl (fun (acc : Chk) p => acc ^^^ pageChk p.1 p.2) 0 ||| flag
        if chk ≠ s.posChk then (s, "err") else
        (s, "ok " ++ showLTX { hdr with post := chk, pages := pgs } true))
-  | "apply" :: spec =>
-    if !(s.opened && s.hasDB) then (s, "bad-op") else
+  | "sapply" :: spec =>
+    if !s.opened then (s, "bad-op") else
     (match parseLTXSpec spec with
      | none => (s, "bad-op")
      | some f =>
        if !ltxSpecOK f then (s, "bad-op") else
+       let s := if s.hasDB then s else { s with hasDB := true, dbFile := some ByteArray.empty }
        if !snapshotPostOK f then
-         -- Verify fails inside WriteLTXFileAt (after the position check)
          (match s.locks.tryAcquireWriteLock s.walMode with
           | (t, none) => ({ s with locks := t }, "busy")
           | (t, some i) => ({ s with locks := t.unlockAll i }, "rejected"))
        else run s (receiveLTX s f))
+  | "txapply" :: spec =>
+    if !s.opened then (s, "bad-op") else
+    (match parseLTXSpec spec with
+     | none => (s, "bad-op")
+     | some f =>
+       if !ltxSpecOK f then (s, "bad-op") else
+       if !s.hasDB then (s, "notfound") else
+       if !snapshotPostOK f then (s, "rejected") else run s (receiveTx s f))
   | ["import", d] =>
     if !s.opened then (s, "bad-op") else
     (match bytesOf d with
